@@ -26,6 +26,15 @@ def fmap(x):
     return {int(k): v for k, v in x.items()}
 
 
+def vary_buf(data, salt=""):
+    """the loaders take a ByteString: hand the same export over as bytes, bytearray or memoryview (chosen deterministically from the
+    payload, so that a replay makes the same choice)"""
+    import zlib
+
+    form = (bytes, bytearray, memoryview)[zlib.crc32(bytes(data[:64]) + repr(salt).encode()) % 3]
+    return form(bytes(data))
+
+
 def jdump(o):
     return json.dumps(o, sort_keys=True, default=_default)
 
